@@ -629,6 +629,10 @@ func (a *Assembler) Assemble(netFlow gopacket.Flow, t *layers.TCP) {
 type assemblerAction struct {
 	nextSeq Sequence
 	queue   bool
+	// limitPages is the number of pages the half-connection held when a
+	// buffer limit made the assembler release its first buffered run (0: no
+	// limit was hit)
+	limitPages int
 }
 
 // AssembleWithContext reassembles the given TCP packet into its appropriate
@@ -756,6 +760,16 @@ func (a *Assembler) AssembleWithContext(netFlow gopacket.Flow, t *layers.TCP, ac
 		if t.FIN && half.closed {
 			half.nextSeq = half.nextSeq.Add(1)
 		}
+	}
+	// Releasing one buffered run does not make room for a packet of several
+	// pages: go on, as long as releasing makes room (a stream that keeps what
+	// it is given holds on to the pages), until the connection is below the
+	// limits again.
+	for before := action.limitPages; before > 0 && half.pages < before && !half.closed && half.first != nil &&
+		((a.MaxBufferedPagesPerConnection > 0 && half.pages >= a.MaxBufferedPagesPerConnection) ||
+			(a.MaxBufferedPagesTotal > 0 && a.pc.used >= a.MaxBufferedPagesTotal)); {
+		before = half.pages
+		a.skipFlush(conn, half)
 	}
 	if *debugLog {
 		log.Printf("%v nextSeq:%d", key, half.nextSeq)
@@ -995,6 +1009,7 @@ func (a *Assembler) handleBytes(bytes []byte, seq Sequence, half *halfconnection
 				log.Printf("hit max buffer size: %+v, %v, %v", a.AssemblerOptions, half.pages, a.pc.used)
 			}
 			action.queue = false
+			action.limitPages = half.pages
 			a.addNextFromConn(half)
 		}
 		a.dump("handleBytes after queue", half)
